@@ -32,7 +32,10 @@ MODEL_MAP = [
 TRUSTED = ['scripted transports harness/c04_util.py (fake socket, os/select, pyaardvark, clock): only the ORDER of '
            'events is represented; real time-outs, UDP loss and OS buffering are not']
 KINDS = ['rmcp', 'ipmbdev', 'aardvark']
-COQ_KIND = {'rmcp': 'KRmcp', 'ipmbdev': 'KIpmbDev', 'aardvark': 'KAardvark'}
+# C04_MODEL_ORIGINAL=1 compares with the model of the code as found (re-queueing); used once to
+# confirm that rmcp_send_receive_original, about which the C04_F4_* theorems speak, is that code
+COQ_KIND = {'rmcp': 'KRmcpOriginal' if os.environ.get('C04_MODEL_ORIGINAL') else 'KRmcp',
+            'ipmbdev': 'KIpmbDev', 'aardvark': 'KAardvark'}
 F4_KEY = 'Rmcp._send_and_receive:unmatched-frame-requeued'
 SYM_NAMES = ['match', 'stale-seq', 'other-cmd', 'other-netfn', 'other-lun', 'bad-hdr-csum', 'bad-payload-csum',
              'bridge-ack', 'short', 'timeout', 'oserror', 'bridged-match', 'bridge-cc-error']
@@ -427,13 +430,17 @@ def run(ctx):
         for job, out, f, runs in pool.imap_unordered(_sweep_shard, jobs, chunksize=1):
             nruns += runs
             seed, alpha, prefix, n, budgets = job
-            for (kind, ign), (m, codes) in out.items():
+            for ci, ((kind, ign), (m, codes)) in enumerate(out.items()):
+                D.add(('sweep', kind, ign, alpha, prefix, n), True, 'sweep-%s-len%d' % (kind, len(prefix) + n))
+                if q and len(prefix) + n >= 5 and (sum(prefix) + ci) % 2:
+                    # quick tier: the property oracle ran on every ordering; the model is compared
+                    # on every second (shard, configuration) pair of the longest words
+                    continue
                 sweep_terms.append('chk_sweep %s %s %d %d %s %s %s %s %s %s %s' % (
                     COQ_KIND[kind], C.c_bool(ign), m['slave'], m['seq0'], nl(m['rq']), C.c_hex(bytes.fromhex(m['p'])),
                     C.c_hex(bytes.fromhex(m['tx'])), nl(alpha), nl(prefix), C.c_nat(n), nl(codes)))
                 sweep_meta.append({'kind': kind, 'ign': ign, 'alpha': list(alpha), 'prefix': list(prefix), 'n': n,
                                    'm': m, 'codes': codes})
-                D.add(('sweep', kind, ign, alpha, prefix, n), True, 'sweep-%s-len%d' % (kind, len(prefix) + n))
             for key, (msg, inp) in f.items():
                 fail(key, msg, inp)
     res.evaluations += nruns
@@ -541,7 +548,8 @@ def run(ctx):
                 'netfn, other LUN, bad header checksum, bad payload checksum, bridge ack, short frame, time-out} and of '
                 'length 0..%d over 13 symbols (+ OS error, bridged reply, failing bridge response)%s, each under retry '
                 'budgets 0..3 on Rmcp (rmcp_ignore_rq_seq off/on), IpmbDev, Aardvark (one random request per shard of 1000 '
-                'words); then %d random sequences of 1..4 requests on one interface object (late replies to earlier '
+                'words; quick tier: the model is compared on all orderings up to length 4 and on every second (shard, '
+                'configuration) pair of length 5, the property oracle runs on all); then %d random sequences of 1..4 requests on one interface object (late replies to earlier '
                 'requests, pre-filled queue, bridged targets, rmcp_ignore_sdu_length). distinct_nontrivial counts each '
                 '(ordering, budget, configuration) run once plus distinct sequences; every run has >= 1 request'
                 % (5 if q else 6, 3 if q else 4, '' if q else ', length 7 over {match, stale, bad checksum, ack, short, time-out}',
